@@ -153,4 +153,35 @@ CHECKS = {
         "level_text": "Seeded exploration of interleavings at lock and file-system-call granularity of writers with manual and automatic snapshots, rotation and compaction; each run judged exactly by a real recovery of the journalled directory.",
         "level_note": "trusted base: lock model, libc journal, reference census; schedules sampled",
     },
+    "C04": {
+        "level": "exploration",
+        "design_ref": "DESIGN.md section 5/C04",
+        "engine": "sequential driver + E1 clock",
+        "technique": "deterministic simulation: seeded sequential histories over TieredEngine with simulated clock, a tick of the real background flush/audit task on a paused runtime, and adversarial pokes planted in caches and mirror; every read judged against a reference map",
+        "rule": "seeded histories (4-30 steps quick, 4-60 thorough) over TieredEngine x cache strategy {LRU, learned (trained/untrained), learned+semantic, A/B} x cache capacity {1,2,5,50} x hot hard limit {1,2,5,200} x "
+                "metric x persistence: writes, deletes, batch deletes (ids / metadata filter), metadata updates, bulk loads bypassing the recent-write tier, forced/threshold drains, clock gaps beyond max age and audit interval, "
+                "one tick + shutdown of the real spawn_flush_task loop, reads of every flavour; odd runs add pokes {stale version (incl. previous delete/reinsert epoch), foreign token, corrupted payload, mirror-only metadata; orphan "
+                "entries for ids that do not exist} into the document cache and the hot-tier mirror. Every read == model; after every drain/audit (and every 6th step) canonical census == model; full read census every 5th step. "
+                "evaluations = steps executed. distinct_nontrivial = distinct hashes of the (step kind, hot-tier size, cache size) sequence of histories longer than 3 steps.",
+        "assumptions": ["operations are sequential (concurrency is C05's subject)", "server response hydration (Query/BulkQuery RPC) is not driven here"],
+        "expected_probes": ["emergency_drain", "forced_drain_moved_documents", "background_task_tick", "bulk_load", "poke_stale_version_cache", "poke_stale_version_mirror", "poke_orphan_mirror", "poke_corrupt_payload_cache", "poke_foreign_token_mirror", "document_cache_full"],
+        "tiers": {"quick": {"runs_per_worker": 1000000, "budget_s": 35}, "thorough": {"runs_per_worker": 10000000, "budget_s": 600}},
+        "level_text": "Seeded exploration of sequential histories x configurations with cache/mirror pokes as fault injection; each read and each post-drain canonical census judged exactly against a reference map.",
+        "level_note": "trusted base: reference map, pin of stored vectors (normalisation), poke classification",
+    },
+    "C20": {
+        "level": "exploration",
+        "vsim_id": "C20",
+        "design_ref": "DESIGN.md section 5/C20",
+        "engine": "sequential driver + E1 clock",
+        "technique": "deterministic simulation: the C04 histories with size invariants evaluated after every operation (document cache, query-result cache, recent-write tier at insert return)",
+        "rule": "the C04 histories (same generator and configuration swarm incl. capacities {1,2,5,50}, query-cache capacities {1,2,5,50}, hard limits {1,2,5,200}, all strategies, pokes in odd runs); after EVERY step: cache_size() <= capacity "
+                "(A/B splitter: each arm <= capacity and the sum <= 2 x capacity), QueryHashCache::len() <= capacity, hot_tier().len() <= hard limit whenever an insert has returned; content of what was evicted/drained is covered by "
+                "C04's read oracle in the same runs. evaluations = steps after which the bounds were evaluated. distinct_nontrivial as C04.",
+        "assumptions": ["the semantic adapter's auxiliary embedding store is recorded, not judged (the statement names the document cache, the query-result cache and the recent-write tier)"],
+        "expected_probes": ["document_cache_full", "query_cache_full", "emergency_drain"],
+        "tiers": {"quick": {"runs_per_worker": 1000000, "budget_s": 30}, "thorough": {"runs_per_worker": 10000000, "budget_s": 600}},
+        "level_text": "Seeded exploration of histories x capacities x strategies with the size bounds checked as invariants after every operation.",
+        "level_note": "trusted base: the public size accessors (cache_size, QueryHashCache::len, HotTier::len)",
+    },
 }
